@@ -33,6 +33,7 @@ def splitDots (s : String) : List String := s.splitOn "."
 
 def isNamed (fn : String) : Bool := fn == "sum" || fn == "prod" || fn == "min" || fn == "max"
 def isIntrinsic (ty : String) : Bool := ty == "int" || ty == "long" || ty == "double" || ty == "complex"
+def isLight (ty : String) : Bool := isLightArith ty || ty == "cfloat" || ty == "cldouble" || ty == "pod"
 def isTrueScalar (ty : String) : Bool := ty != "fv3"
 
 structure CollCase where
@@ -74,6 +75,17 @@ def unsupported (k : CollCase) (seq : Bool) (inSize outSize : Nat) : Bool :=
   let inN := inSize / e
   let outN := outSize / e
   if k.ty == "char" then true else
+  if isLight k.ty then
+    -- the light element types are instantiated for a restricted set of calls only
+    if seq then true else
+    match k.base, k.form with
+    | "red", form =>
+      if (redOp k.ty k.fn).isNone then true
+      else if form == "sc" then !(k.n == 1)
+      else !(form == "ip" || form == "io")
+    | "bcast", "ptr" | "gatherv", "ptr" | "allgather", "ptr" => false
+    | _, _ => true
+  else
   match k.base, k.form with
   | "red", form =>
     let vec := isIntrinsic k.ty && isNamed k.fn
@@ -198,18 +210,16 @@ def handleP2p (toks : List String) : String :=
         let rr := mode == "isend_rrecv" || mode == "chain_rrecv"
         let chain := mode == "chain_recv" || mode == "chain_rrecv"
         let knownMode := mode == "isend_recv" || mode == "irecv_send" || rr || chain
-        let uns := !knownMode || (cont == "sc" && (ty == "char" || rr)) || (cont == "vec" && ty == "char")
+        let uns := !knownMode || isLight ty || (cont == "sc" && (ty == "char" || rr)) || (cont == "vec" && ty == "char")
           || (cont == "str" && ty != "char") || !(cont == "sc" || cont == "vec" || cont == "str")
           || (chain && shift % P == 0)
         if uns then ranksLine (List.replicate P "ERR:unsupported")
         else if sd.any (fun p => p.1.length % e ≠ 0 || p.2.length % e ≠ 0) then ranksLine (List.replicate P "ERR:malformed")
         else
           let srcs := sd.map fun p => (p.1, p.1.length / e)
-          let dsts := (List.range P).map fun r =>
-            let d := (sd.getD r ([], [])).2
-            let incoming := (srcs.getD ((r + P - shift % P) % P) ([], 0)).2
-            if rr then resizeCells e (List.replicate e 0) d incoming else d
-          ranksLine ((Spec.ringRecv tm shift srcs dsts).map showCells)
+          let dsts := sd.map (·.2)
+          if rr then ranksLine ((Spec.ringRrecv tm (List.replicate e 0) shift srcs dsts).map showCells)
+          else ranksLine ((Spec.ringRecv tm shift srcs dsts).map showCells)
     | _, _ => "bad-op"
   | _ => "bad-op"
 
@@ -227,7 +237,8 @@ def parseItem (t : String) : Option (Option (It × De)) :=   -- none = bad-op, s
       if src.length % e ≠ 0 || dst.length % e ≠ 0 then none else
       match kind with
       | "s" => if src.length = e && dst.length = e then some (some (.stat tm 1 src, .stat tm 1 dst)) else none
-      | "a" => if src.length = 3 * e && dst.length = 3 * e then some (some (.stat tm 3 src, .stat tm 3 dst)) else none
+      | "a" => if isLight ty then some none
+               else if src.length = 3 * e && dst.length = 3 * e then some (some (.stat tm 3 src, .stat tm 3 dst)) else none
       | "v" => if ty == "char" then some none
                else some (some (.dyn tm (src.length / e) src, .dyn tm (List.replicate e 0) dst))
       | "t" => if ty != "char" then some none
@@ -295,6 +306,10 @@ def tmapOf (ty : String) (lay : List Nat) : Option TMap :=
   open TMap Types in
   match ty, lay with
   | "int", [s] | "long", [s] | "double", [s] | "char", [s] | "complex", [s] => some (basic s)
+  | "uchar", [s] | "short", [s] | "ushort", [s] | "uint", [s] | "ulong", [s] | "float", [s] | "ldouble", [s]
+  | "cfloat", [s] | "cldouble", [s] => some (basic s)
+  -- no MPITraits specialisation: `sizeof(T)` bytes
+  | "llong", [s] | "pod", [s] => some (contiguous s (basic 1))
   | "fv3", [d, n, w] => some (fieldVector d n (basic w))
   | "big96", [d, n, w] => some (bigUnsigned d n (basic w))
   | "pair", [o1, s1, o2, s2, size] => some (pair o1 (basic s1) o2 (basic s2) size)
@@ -315,6 +330,15 @@ def handleTmap (toks : List String) : String :=
     | _, _ => "bad-op"
   | _ => "bad-op"
 
+/-! ### rank / size / barrier / refusals -/
+
+def handleMisc (toks : List String) : String :=
+  match kvNat toks "np" with
+  | some P =>
+    ranksLine ((List.range P).map fun r =>
+      showList [r, P, 0, 1, Seq.rank, Seq.size, 0, 1, 0, 0, Seq.barrier, 63, r, P, r, P, Seq.rank, Seq.size])
+  | none => "bad-op"
+
 def handle (line : String) : String :=
   let toks := tokens line
   match toks.head? with
@@ -322,6 +346,7 @@ def handle (line : String) : String :=
   | some "p2p" => handleP2p toks
   | some "pack" => handlePack toks
   | some "tmap" => handleTmap toks
+  | some "misc" => handleMisc toks
   | _ => "bad-op"
 
 def main : IO Unit := runDriver handle
